@@ -257,7 +257,11 @@ async def workflow(case):
             if srvp is not None:
                 srvp.kill()
                 import shutil
+                from props import c13 as P
+                t_other = P.other_device_tmp(work, create=False)
                 shutil.rmtree(work, ignore_errors=True)
+                if t_other:
+                    shutil.rmtree(t_other, ignore_errors=True)
         finally:
             stopping["done"] = True
             with contextlib.suppress(BaseException):
